@@ -222,7 +222,14 @@ class World:
         tkv = []
         for t, m in zip(self.ids, c['tm']):
           tkv += [vizier_service_pb2.UnitMetadataUpdate(trial_id=str(t), metadatum=kv) for kv in self._kvs(m)]
-        ds.update_metadata(self.sname(c['s']), skv, tkv)
+        if c.get('bad'):
+          tkv.append(vizier_service_pb2.UnitMetadataUpdate(trial_id='0', metadatum=key_value_pb2.KeyValue(key=self.cells[0], ns='', value='v9')))
+        try:
+          ds.update_metadata(self.sname(c['s']), skv, tkv)
+        except ValueError:
+          if not c.get('bad'):
+            raise
+          return {'err': 'Invalid', 'val': 'None'}
         scrib += [(kv, 'value') for kv in skv] + [(u.metadatum, 'value') for u in tkv]
         val = 'ok'
       else:
